@@ -17,14 +17,16 @@ mvars == <<fs, children, live, it, tsf, nops, everAsleep, lastAct>>
 Wd == W(fs, children)
 
 \* witnesses against vacuity
-WitInit == TLCSet(1, FALSE) /\ TLCSet(2, FALSE) /\ TLCSet(3, FALSE)
-Wit == /\ ((live = BaseIds /\ nops > 1) => TLCSet(1, TRUE))
-       /\ ((everAsleep # {}) => TLCSet(2, TRUE))
-       /\ ((Cardinality(live \cap BiasIds) = 2) => TLCSet(3, TRUE))
-WitPost == TLCGet(1) /\ TLCGet(2) /\ TLCGet(3)
 
+\* vacuity witnesses: the check searches a state satisfying each Witness<i> (a violation of NoWitness<i>)
+Witness1 == live = BaseIds /\ nops > 1
+NoWitness1 == ~Witness1
+Witness2 == everAsleep # {}
+NoWitness2 == ~Witness2
+Witness3 == Cardinality(live \cap BiasIds) = 2
+NoWitness3 == ~Witness3
 Init == /\ fs = BaseFs /\ children = BaseCh /\ live = BaseIds /\ it = 0 /\ tsf = [b \in BiasIds |-> 1]
-        /\ nops = 0 /\ everAsleep = {} /\ lastAct = "init" /\ WitInit
+        /\ nops = 0 /\ everAsleep = {} /\ lastAct = "init"
 
 Create(b, t) ==
   /\ b \notin live /\ nops < MaxOps
